@@ -9,4 +9,4 @@ run() {
   done
 }
 export -f run
-ls -d benign_pending/${1:-}*/ | xargs -P 6 -I{} bash -c 'run {}' 
+ls -d benign_pending/${1:-}*/ benign_more/${1:-}*/ 2>/dev/null | xargs -P 6 -I{} bash -c 'run {}' 
